@@ -19,8 +19,8 @@
            [fx = false] is the tree before it;
      [fy]  the repair build/fixes/C09_reclamp_on_schema_update.diff (applied as 9fe3fd1, 6549ff0): a
            schema update re-bounds the quota in force at once, also while the limiter server is unavailable;
-     [fz]  the repair build/fixes/C09_type_change_drops_remote_quota.diff: a schema update that changes
-           the flow-control TYPE drops the remote wrapper (its quota was granted for the other type).
+     [fz]  the repair 06780c0: a schema update that changes the flow-control TYPE drops the remote
+           wrapper (its quota was granted for the other type).
    The theorems are about [fx = fy = fz = true]; C09_Unrepaired.v refutes them for the other trees.
    Machine integers: int32 values are [Z] with explicit [wrap32]/[wrapu32] at every
    Go conversion.  No proofs here. *)
